@@ -276,10 +276,8 @@ class SReal:
         eng = E.cur()
         if eng.branch(self.e < 0):
             return NAN
-        if eng.branch(self.e == 0):
-            return SReal(z3.RealVal(0))
         s = eng.fresh("sqrt")
-        eng.add_side(z3.And(s > 0, s * s == to_real(self.e)))
+        eng.add_side(z3.And(s >= 0, s * s == to_real(self.e)))
         return SReal(s)
 
     def exp(self):
